@@ -219,6 +219,7 @@ def _num_value(nj, as_int=False):
 
 _PARSED = {}
 _parsed_toggle = [0]
+_unnamed = [0]
 
 
 def register_parsed(d, q):
@@ -279,6 +280,12 @@ def _load_tree(d):
         raise ValueError("unknown class %s" % c)
     if d.get("n") is not None:
         setattr(node, "_luqum_name", d["n"])
+    else:
+        # every fifth un-named node was un-named explicitly (`set_name(node, None)`, the only way the naming API offers):
+        # an un-named node is one whose name is None, whether the attribute is there or not (seeded C06-H)
+        _unnamed[0] += 1
+        if _unnamed[0] % 5 == 0 and c != "NoneItem":
+            setattr(node, "_luqum_name", None)
     if c in ("Fuzzy", "Proximity", "Boost") and d["num"].get("imp"):
         # a number that is not printed but was assigned in place (`node.degree = 2` on `foo~`): no constructor call
         # gives that state, the attribute is assigned as the caller did
